@@ -1,6 +1,8 @@
 (* Proofs/BetweenPow.v — betweenness_bin (matrix-power algorithm), in FULL.
-   Forward phase: NPd holds the d-th power of G (walk counts), NSPd the numbers of minimum-length walks of exactly
-   d connections, NSP / L the numbers of minimum-length walks / the distances found so far (matrix-power induction);
+   Forward phase: NSPd holds the numbers of minimum-length walks of exactly d connections, NPd = NSPd_(d-1) . G the
+   numbers of d-walks whose first d-1 connections are a minimum-length walk (`NPd = np.dot(NSPd, G)`: only
+   minimum-length walks are extended; on the entries that `* (L == 0)` keeps this is the entry of the d-th power of G,
+   ext_shortest), NSP / L the numbers of minimum-length walks / the distances found so far (matrix-power induction);
    the loop ends within n+1 rounds with L = dist_spec and NSP = sigma.
    Back-propagation: pass d completes the dependencies DP[i,j] of the nodes j at distance d-1 from i (Brandes'
    recursion over the tight connections), so that finally DP[i,j] = delta_i(j) and the column sums are BC_spec. *)
@@ -101,7 +103,8 @@ Definition NSP_spec (d : Z) (i j : nat) : Z :=
   if Nat.eqb i j then 1 else match dist_spec n G i j with Some e => if Z.leb e d then sigma n G i j else 0 | None => 0 end.
 
 Definition FI (dn : nat) (NPd NSPd NSP L : mat Z) : Prop :=
-  (forall i j, (i < n)%nat -> (j < n)%nat -> NPd i j = mpow n G dn i j) /\
+  (forall i j, (i < n)%nat -> (j < n)%nat -> i <> j ->
+     (forall e, dist_spec n G i j = Some e -> Z.of_nat dn <= e) -> NPd i j = mpow n G dn i j) /\
   (forall i j, (i < n)%nat -> (j < n)%nat -> i <> j -> NSPd i j = NSPd_spec (Z.of_nat dn) i j) /\
   ((2 <= dn)%nat -> forall i, (i < n)%nat -> NSPd i i = 0) /\
   (forall i j, (i < n)%nat -> (j < n)%nat -> L i j = L_spec (Z.of_nat dn) i j) /\
@@ -132,9 +135,39 @@ Proof.
   - apply P1. left; reflexivity.
 Qed.
 
+(* one more connection after the minimum-length dn-walks: on the pairs that are farther apart than dn (the entries
+   that `* (L == 0)` keeps) the product is the entry of G^(dn+1) - a walk of dn+1 connections to such a node is a
+   minimum-length walk, and so is its prefix of dn connections.  X is NSPd: its diagonal is not looked at. *)
+Lemma ext_shortest dn X : (1 <= dn)%nat ->
+  (forall i k, (i < n)%nat -> (k < n)%nat -> i <> k -> X i k = NSPd_spec (Z.of_nat dn) i k) ->
+  forall i j, (i < n)%nat -> (j < n)%nat -> i <> j ->
+  (forall e, dist_spec n G i j = Some e -> Z.of_nat dn < e) ->
+  mmulZ n X G i j = mpow n G (S dn) i j.
+Proof.
+  intros Hdn HX i j Hi Hj Hij Hgt. pose proof (binary_nonneg n G HB) as HG.
+  cbn [mpow]. unfold mmulZ. apply sumn_ext. intros k Hk.
+  destruct (Z.eq_dec (G k j) 0) as [->|Hg]; [rewrite !Z.mul_0_r; reflexivity|]. f_equal.
+  assert (Hge : forall e, dist_spec n G i k = Some e -> Z.of_nat dn <= e).
+  { intros e Ek. destruct (dist_edge_le n G i k j e HG Hj Ek Hg) as (e' & E' & Hle). specialize (Hgt e' E').
+    destruct (HB k j Hk Hj) as [H0|H1]; [contradiction|]. lia. }
+  assert (Hik : i <> k).
+  { intros <-. specialize (Hge 0 (dist_self n G i HG Hi)). lia. }
+  rewrite (HX i k Hi Hk Hik). symmetry. apply pow_next; auto.
+Qed.
+
+Lemma ext_shortest_counts dn X : (1 <= dn)%nat ->
+  (forall i k, (i < n)%nat -> (k < n)%nat -> i <> k -> X i k = NSPd_spec (Z.of_nat dn) i k) ->
+  forall i j, (i < n)%nat -> (j < n)%nat -> i <> j ->
+  (forall e, dist_spec n G i j = Some e -> Z.of_nat dn < e) ->
+  mmulZ n X G i j = NSPd_spec (Z.of_nat (S dn)) i j.
+Proof.
+  intros Hdn HX i j Hi Hj Hij Hgt. rewrite (ext_shortest dn X Hdn HX i j Hi Hj Hij Hgt).
+  apply pow_next; auto. intros e E. specialize (Hgt e E). lia.
+Qed.
+
 Lemma FI_step dn NPd NSPd NSP L : (1 <= dn)%nat -> FI dn NPd NSPd NSP L ->
   let d1 := Z.of_nat dn + 1 in
-  let NPd1 := tab 0 n n (mmulZ n NPd G0) in
+  let NPd1 := tab 0 n n (mmulZ n NSPd G0) in
   let NSPd1 := tab 0 n n (fun i j => NPd1 i j * b2z (Z.eqb (L i j) 0)) in
   let NSP1 := tab 0 n n (fun i j => NSP i j + NSPd1 i j) in
   let L1 := tab 0 n n (fun i j => L i j + d1 * b2z (nzb (NSPd1 i j))) in
@@ -143,9 +176,11 @@ Proof.
   intros Hdn (F1 & F2 & F3 & F4 & F5) d1 NPd1 NSPd1 NSP1 L1.
   pose proof (binary_nonneg n G HB) as HG.
   assert (Hd1 : d1 = Z.of_nat (S dn)) by (unfold d1; lia).
-  assert (E1 : forall i j, (i < n)%nat -> (j < n)%nat -> NPd1 i j = mpow n G (S dn) i j).
-  { intros i j Hi Hj. unfold NPd1. rewrite tab_spec by assumption. cbn [mpow]. unfold mmulZ. apply sumn_ext.
-    intros k Hk. rewrite (F1 i k Hi Hk). unfold G0. rewrite tab_spec by assumption. reflexivity. }
+  assert (E1 : forall i j, (i < n)%nat -> (j < n)%nat -> i <> j ->
+            (forall e, dist_spec n G i j = Some e -> Z.of_nat (S dn) <= e) -> NPd1 i j = mpow n G (S dn) i j).
+  { intros i j Hi Hj Hij Hge. unfold NPd1. rewrite tab_spec by assumption.
+    rewrite <- (ext_shortest dn NSPd Hdn F2 i j Hi Hj Hij); [|intros e E; specialize (Hge e E); lia].
+    unfold mmulZ. apply sumn_ext. intros k Hk. unfold G0. rewrite tab_spec by assumption. reflexivity. }
   assert (HL0 : forall i j, (i < n)%nat -> (j < n)%nat ->
             (L i j = 0 <-> i <> j /\ forall e, dist_spec n G i j = Some e -> Z.of_nat dn < e)).
   { intros i j Hi Hj. rewrite (F4 i j Hi Hj). unfold L_spec. destruct (Nat.eqb_spec i j) as [->|Hne].
@@ -158,9 +193,10 @@ Proof.
       + split; [|reflexivity]. intros _. split; [exact Hne|]. intros e' Ee. discriminate. }
   assert (E2 : forall i j, (i < n)%nat -> (j < n)%nat ->
             NSPd1 i j = if Nat.eqb i j then 0 else NSPd_spec d1 i j).
-  { intros i j Hi Hj. unfold NSPd1. rewrite tab_spec by assumption. rewrite (E1 i j Hi Hj).
+  { intros i j Hi Hj. unfold NSPd1. rewrite tab_spec by assumption.
     destruct (Z.eqb_spec (L i j) 0) as [E0|E0]; cbn [b2z].
     - apply (HL0 i j Hi Hj) in E0. destruct E0 as [Hne Hgt]. destruct (Nat.eqb_spec i j); [contradiction|].
+      rewrite (E1 i j Hi Hj Hne); [|intros e Ee; specialize (Hgt e Ee); lia].
       rewrite Z.mul_1_r, Hd1. apply pow_next; auto. intros e Ee. specialize (Hgt e Ee). lia.
     - rewrite Z.mul_0_r. destruct (Nat.eqb_spec i j) as [|Hne]; [reflexivity|]. unfold NSPd_spec.
       destruct (dist_spec n G i j) as [e|] eqn:E; [|reflexivity].
@@ -249,7 +285,7 @@ Proof.
   { intros i j Hi Hj Hij E. pose proof (HN i j Hi Hj Hij) as H. unfold NSPd_spec in H. rewrite E, Z.eqb_refl in H.
     unfold G0 in H. rewrite tab_spec in H by assumption. pose proof (sigma_pos n G i j 1 E).
     destruct (HB i j Hi Hj); lia. }
-  unfold FI. split; [exact HG1|]. split; [exact HN|]. split; [intros H; lia|]. split.
+  unfold FI. split; [intros i j Hi Hj _ _; exact (HG1 i j Hi Hj)|]. split; [exact HN|]. split; [intros H; lia|]. split.
   - intros i j Hi Hj. rewrite tab_spec by assumption. unfold bb_init_diag, L_spec.
     destruct (Nat.eqb_spec i j) as [|Hij]; [reflexivity|]. rewrite (HN i j Hi Hj Hij). unfold NSPd_spec.
     destruct (dist_spec n G i j) as [e|] eqn:E; [|reflexivity]. pose proof (Hd1 i j e Hij E).
@@ -262,6 +298,24 @@ Proof.
     change (Z.of_nat 1) with 1. destruct (Z.eqb_spec e 1) as [->|]; [reflexivity|]. destruct (Z.leb_spec e 1); [lia|reflexivity].
 Qed.
 End Forward.
+
+(* what the forward loop's product holds: G^d counts the minimum-length walks where dist = d (0 beyond), and the
+   product that the loop forms - NSPd . G, minimum-length walks of dn connections extended by one - has, on every
+   pair farther apart than dn (the entries kept by `* (L == 0)`), the entry of G^(dn+1), i.e. the number of
+   minimum-length walks of dn+1 connections *)
+Theorem pow_sigma_ext n G : binary n G -> forall dn i j, (i < n)%nat -> (j < n)%nat ->
+  ((dist_spec n G i j = None \/ exists e, dist_spec n G i j = Some e /\ Z.of_nat dn < e) -> mpow n G dn i j = 0) /\
+  (dist_spec n G i j = Some (Z.of_nat dn) -> mpow n G dn i j = sigma n G i j) /\
+  (forall X, (1 <= dn)%nat -> i <> j ->
+     (forall a k, (a < n)%nat -> (k < n)%nat -> a <> k -> X a k = NSPd_spec n G (Z.of_nat dn) a k) ->
+     (forall e, dist_spec n G i j = Some e -> Z.of_nat dn < e) ->
+     mmulZ n X G i j = mpow n G (S dn) i j /\ mmulZ n X G i j = NSPd_spec n G (Z.of_nat (S dn)) i j).
+Proof.
+  intros HB dn i j Hi Hj. destruct (pow_sigma n G HB dn i j Hi Hj) as [P1 P2].
+  split; [exact P1|]. split; [exact P2|]. intros X Hdn Hij HX Hgt. split.
+  - apply (ext_shortest n G HB dn X Hdn HX i j Hi Hj Hij Hgt).
+  - apply (ext_shortest_counts n G HB dn X Hdn HX i j Hi Hj Hij Hgt).
+Qed.
 
 (* ---------- per-source dependencies over the tight connections ---------- *)
 Open Scope Q_scope.
